@@ -64,7 +64,7 @@ theorem C09_scanner_bound_loop (env : Env κ) (L : Labels) (hok : HeadOk env.tbl
     (m.c.isLast = false → ∀ data, HInv env.tbl L (inp.drop k ++ data) (runLoop env inp n m).1) ∧
     ((runLoop env inp n m).1.ts = none → (runLoop env inp n m).1.cs = none → inp.length ≤ k) ∧
     (runLoop env inp n m).1.isScanner = true := by
-  have := runLoop_post (env := env) (inp := inp) rfl hok n m h
+  have := scan_runLoop_post (env := env) (inp := inp) rfl hok n m h
   rw [hk] at this
   exact this
 
